@@ -1,11 +1,745 @@
 import Driver.Json
+import OomdModel.Kill
+import OomdModel.Path
 
-/-! Driver glue for engine `kill` (stub: not built yet). -/
+/-! Driver glue for engine `h_kill` (C01, C03, C04, C17).  Scenario + implementation trace in, verdict out.
+
+`accepts`: the model (`OomdModel.Kill.runKill`) run against the environment answers extracted from the
+implementation's trace, with a ranking that is admissible (`rankOKb`) and resolves ties the way the trace
+suggests, produces exactly the implementation's boundary events and return value, tick by tick.
+
+`holds`: the clauses of the property named by the scenario's `prop`, evaluated on the implementation's events and
+the scenario alone (no model run involved). -/
 namespace Driver.Kill
-open Lean
+open Lean OomdModel OomdModel.Kill
 
-def handle (j : Json) : Json :=
-  Json.mkObj [("id", Json.str (jstr (jobj j "s") "id")), ("error", Json.str "engine kill not implemented")]
+/-! ## scenario → views -/
+
+structure Meta where
+  id : Nat
+  path : String
+  comps : List String
+  parent : Option Nat
+deriving Repr
+
+def semBool? (j : Json) (k : String) : Option Bool :=
+  match j.getObjVal? k with
+  | .ok (Json.bool b) => some b
+  | .ok v => match v.getInt? with
+    | .ok n => some (n != 0)
+    | _ => none
+  | _ => none
+
+partial def parseNode (listing : Json) (parentPath : List String) (j : Json) : View :=
+  let name := jstr j "name"
+  let comps := parentPath ++ [name]
+  let sem := jobj j "sem"
+  let xs := jobj j "xattrs"
+  let marks : Marks := {
+    trustedPrefer := jhas xs Generated.xattrPreferTrusted
+    userPrefer := jhas xs Generated.xattrPreferUser
+    trustedAvoid := jhas xs Generated.xattrAvoidTrusted
+    userAvoid := jhas xs Generated.xattrAvoidUser }
+  let info : Info := {
+    id := jnat j "id"
+    path := "/".intercalate comps
+    populated := semBool? sem "populated"
+    oomGroup := semBool? sem "oom_group"
+    marks := marks
+    key := jint sem "key"
+    eligible := (semBool? sem "eligible").getD true
+    pidsCurrent := jint? sem "pids_current" }
+  let kids := jarr j "children"
+  let order := jstrs listing (toString info.id)
+  let listed := order.filterMap fun n => kids.find? (fun c => jstr c "name" == n)
+  let rest := kids.filter fun c => !(order.contains (jstr c "name"))
+  View.mk info ((listed ++ rest).map (parseNode listing comps))
+
+partial def metas (parent : Option Nat) (parentPath : List String) (j : Json) : List Meta :=
+  let name := jstr j "name"
+  let comps := parentPath ++ [name]
+  let id := jnat j "id"
+  { id := id, path := "/".intercalate comps, comps := comps, parent := parent } ::
+    (jarr j "children").flatMap (metas (some id) comps)
+
+partial def allViews (v : View) : List View := v :: v.children.flatMap allViews
+
+def findView (vs : List View) (id : Nat) : Option View := vs.find? (fun v => v.id == id)
+
+/-! ## configuration -/
+
+def argBool (args : Json) (k : String) (dflt : Bool) : Bool :=
+  match jstr? args k with
+  | some "true" => true
+  | some "True" => true
+  | some "1" => true
+  | some "false" => false
+  | some "False" => false
+  | some "0" => false
+  | _ => dflt
+
+def cfgOf (sc : Json) (variant : String) : KillCfg :=
+  let args := jobj (jobj sc "cfg") "args"
+  let dry := if variant == "dry" then true else if variant == "wet" then false else argBool args "dry" false
+  { recursive := argBool args "recursive" false
+    dry := dry
+    alwaysContinue := argBool args "always_continue" false
+    kernelKill := argBool args "kernelkill" false
+    reapMemory := argBool args "reap_memory" true
+    postActionDelay := (jstr? args "post_action_delay").bind String.toNat?
+    hasRuleset := (jbool? (jobj sc "ctx") "has_ruleset").getD true }
+
+def patterns (sc : Json) : List String :=
+  ((jstr (jobj (jobj sc "cfg") "args") "cgroup").splitOn ",").filter (· ≠ "")
+
+/-- roots = `resolveWildcard` of every pattern (C16 model), duplicates removed -/
+def rootsOf (ms : List Meta) (views : List View) (pats : List String) : List View :=
+  let t : OomdModel.Path.Tree := { dirs := [] :: ms.map (fun m => m.comps.map String.toList), files := [] }
+  let paths := pats.flatMap fun p => OomdModel.Path.resolve t [] (OomdModel.Path.mk [] p.toList)
+  -- resolved component lists may contain `.`/`..`; normalise by walking
+  let norm (cs : List (List Char)) : List String :=
+    cs.foldl (fun acc c =>
+      if c == ['.'] then acc else if c == ['.', '.'] then acc.dropLast else acc ++ [String.ofList c]) []
+  let rel := (paths.map norm).eraseDups
+  rel.filterMap fun cs => (ms.find? (fun m => m.comps == cs)).bind (fun m => findView views m.id)
+
+/-! ## ranking: lexicographic (preference, key), descending -/
+
+def rk (v : View) : Int × Int := (v.pref.toInt, v.info.key)
+def rkGe (a b : View) : Bool := (rk a).1 > (rk b).1 || ((rk a).1 == (rk b).1 && (rk a).2 ≥ (rk b).2)
+def rkGt (a b : View) : Bool := (rk a).1 > (rk b).1 || ((rk a).1 == (rk b).1 && (rk a).2 > (rk b).2)
+
+def insertBy (le : α → α → Bool) (x : α) : List α → List α
+  | [] => [x]
+  | y :: ys => if le x y then x :: y :: ys else y :: insertBy le x ys
+/-- stable insertion sort: equal elements keep their input order -/
+def sortBy (le : α → α → Bool) (l : List α) : List α := l.foldr (insertBy le) []
+
+mutual
+partial def subIds : View → List Nat
+  | v => v.id :: v.children.flatMap subIds
+end
+
+def indexOf? (l : List Nat) (x : Nat) : Option Nat :=
+  let rec go : List Nat → Nat → Option Nat
+    | [], _ => none
+    | y :: ys, i => if y == x then some i else go ys (i + 1)
+  go l 0
+
+/-- position in the observed attempt sequence of the first attempt this candidate leads to: its own if it is
+    attempted as a whole, the earliest one below it if the loop descends into it -/
+partial def hintOf (cfg : KillCfg) (attempted : List Nat) (v : View) : Nat :=
+  if descends cfg v then (v.children.map (hintOf cfg attempted)).foldl min 1000000
+  else (indexOf? attempted v.id).getD 1000000
+
+/-- an admissible ranking that breaks ties the way the observed attempts suggest (`rev`: the other stable order,
+    for candidates the trace does not tell apart, e.g. overlapping root patterns) -/
+def rankHint (cfg : KillCfg) (attempted : List Nat) (rev : Bool) (l : List View) : List View :=
+  let el := l.filter (·.info.eligible)
+  let el := if rev then el.reverse else el
+  let byHint := sortBy (fun a b => hintOf cfg attempted a ≤ hintOf cfg attempted b) el
+  sortBy rkGe byHint
+
+def sortedDesc : List View → Bool
+  | [] => true
+  | [_] => true
+  | a :: b :: r => rkGe a b && sortedDesc (b :: r)
+
+def permIds (a b : List View) : Bool :=
+  let ia := sortBy (· ≤ ·) (a.map (·.id))
+  let ib := sortBy (· ≤ ·) (b.map (·.id))
+  ia == ib
+
+/-- `RankOK` on one call: a permutation of the eligible inputs, sorted non-increasingly -/
+def rankOKb (rank : List View → List View) (l : List View) : Bool :=
+  permIds (rank l) (l.filter (·.info.eligible)) && sortedDesc (rank l)
+
+/-! ## implementation trace → events + environment -/
+
+structure Impl where
+  evs : List Ev := []
+  env : Env := { procs := [], killRc := [], xattr := [], writes := [], pidfd := [], mrelease := [] }
+  sigBad : Bool := false
+  unknown : List String := []          -- things the vocabulary cannot express (⇒ not accepted)
+  kmsgLines : List (Option Nat × String) := []
+  uuids : List String := []
+  attempted : List Nat := []           -- victims in order (uuid xattrs; kmsg for dry)
+deriving Inhabited
+
+def decimal? (s : String) : Option Int :=
+  if s.isEmpty || !(s.toList.all Char.isDigit) then none else s.toNat?.map Int.ofNat
+
+def xname? (s : String) : Option XName :=
+  if s == Generated.xattrUuidTrusted then some .uuidT
+  else if s == Generated.xattrUuidUser then some .uuidU
+  else if s == Generated.xattrOomsTrusted then some .oomsT
+  else if s == Generated.xattrOomsUser then some .oomsU
+  else if s == Generated.xattrKillTrusted then some .killT
+  else if s == Generated.xattrKillUser then some .killU
+  else none
+
+/-- fields of the structured kill record: (path, ruleset, group, killer) -/
+def parseKmsg (line : String) : Option (String × String × String × String) :=
+  let l := line.trimAscii.toString
+  let pre := "oomd kill: "
+  if !l.startsWith pre then none else
+  let body := (l.drop pre.length).toString
+  let toks := body.splitOn " "
+  -- p10 p60 p300 path current ruleset:[..] detectorgroup:[..] killer:.. v2
+  match toks with
+  | [_, _, _, path, _, rs, dg, killer, _] =>
+    let strip (s pfx : String) : Option String :=
+      if s.startsWith pfx && s.endsWith "]" then some ((s.drop pfx.length).toString.dropEnd 1).toString else none
+    match strip rs "ruleset:[", strip dg "detectorgroup:[" with
+    | some r, some g =>
+      if killer.startsWith "killer:" then some (path, r, g, (killer.drop 7).toString) else none
+    | _, _ => none
+  | _ => none
+
+def implOfTick (ms : List Meta) (tk : Json) : Impl := Id.run do
+  let mut im : Impl := {}
+  let mut evs : Array Ev := #[]
+  let mut procs : Array (Option (List Int)) := #[]
+  let mut killRc : Array Nat := #[]
+  let mut xattr : Array (Option String × Nat) := #[]
+  let mut writes : Array Int := #[]
+  let mut pidfd : Array Nat := #[]
+  let mut mrel : Array Nat := #[]
+  let killsDelta := jint tk "kills_delta"
+  let mut statPlaced := false
+  for e in jarr tk "events" do
+    let ev := jstr e "ev"
+    if ev == "setxattr" then
+      let old := jstr? e "old"
+      let rc := jnat e "rc"
+      match xname? (jstr e "name") with
+      | none => im := { im with unknown := im.unknown ++ ["setxattr:" ++ jstr e "name"] }
+      | some n =>
+        let cg := (jint e "cg").toNat
+        if jint e "cg" < 0 then im := { im with unknown := im.unknown ++ ["setxattr:unknown-cgroup"] }
+        let val ← match n with
+          | .uuidT | .uuidU =>
+            let u := jstr e "val"
+            let idx ← match im.uuids.findIdx? (· == u) with
+              | some i => pure i
+              | none =>
+                im := { im with uuids := im.uuids ++ [u], attempted := im.attempted ++ [cg] }
+                pure (im.uuids.length - 1)
+            pure (XVal.uuid idx)
+          | _ =>
+            match (jstr e "val").toInt? with
+            | some v => pure (XVal.num v)
+            | none =>
+              im := { im with unknown := im.unknown ++ ["setxattr:nonint-value"] }
+              pure (XVal.num 0)
+        evs := evs.push (.setxattr cg n val old rc)
+        xattr := xattr.push (old, rc)
+    else if ev == "procs" then
+      let cg := (jint e "cg").toNat
+      if jint e "cg" < 0 then im := { im with unknown := im.unknown ++ ["procs:unknown-cgroup"] }
+      if isNull (jobj e "lines") then
+        evs := evs.push (.procs cg none); procs := procs.push none
+      else
+        let ls := jstrs e "lines"
+        if ls.any (fun l => (decimal? l).isNone) then im := { im with unknown := im.unknown ++ ["procs:nondecimal"] }
+        let pids := ls.map (fun l => (decimal? l).getD 0)
+        evs := evs.push (.procs cg (some pids)); procs := procs.push (some pids)
+    else if ev == "kill" then
+      if jint e "sig" != 9 then im := { im with sigBad := true }
+      evs := evs.push (.kill (jint e "pid") (jnat e "rc")); killRc := killRc.push (jnat e "rc")
+    else if ev == "write" then
+      let f := jstr e "file"
+      let cg := (jint e "cg").toNat
+      let rc := jint e "rc"
+      if jint e "cg" < 0 then im := { im with unknown := im.unknown ++ ["write:unknown-cgroup"] }
+      if rc ≥ 0 && jstr e "data" != "1" then im := { im with unknown := im.unknown ++ ["write:data"] }
+      if f == Generated.fileCgroupFreeze then
+        evs := evs.push (.write cg .freeze rc); writes := writes.push rc
+      else if f == Generated.fileCgroupKill then
+        evs := evs.push (.write cg .kill rc); writes := writes.push rc
+      else im := { im with unknown := im.unknown ++ ["write:" ++ f] }
+    else if ev == "pidfd_open" then
+      evs := evs.push (.pidfdOpen (jint e "pid") (jnat e "rc")); pidfd := pidfd.push (jnat e "rc")
+    else if ev == "mrelease" then
+      evs := evs.push (.mrelease (jint e "pid") (jnat e "rc")); mrel := mrel.push (jnat e "rc")
+    else if ev == "kmsg" then
+      let line := jstr e "line"
+      if line.startsWith "oomd kill: restarted systemd service=" then
+        let dry := line.trimAscii.toString.endsWith "(dry)"
+        evs := evs.push (.kmsgRestart dry)
+        im := { im with kmsgLines := im.kmsgLines ++ [(none, line)] }
+      else
+      match parseKmsg line with
+      | none => im := { im with unknown := im.unknown ++ ["kmsg:unparsed"], kmsgLines := im.kmsgLines ++ [(none, line)] }
+      | some (path, _, _, killer) =>
+        let dry := killer.startsWith "(dry)"
+        match ms.find? (fun m => m.path == path) with
+        | none => im := { im with unknown := im.unknown ++ ["kmsg:unknown-cgroup"], kmsgLines := im.kmsgLines ++ [(none, line)] }
+        | some m =>
+          if killsDelta == 1 && !statPlaced then
+            evs := evs.push .statKills
+            statPlaced := true
+          evs := evs.push (.kmsg m.id dry)
+          im := { im with kmsgLines := im.kmsgLines ++ [(some m.id, line)] }
+          if dry then im := { im with attempted := im.attempted ++ [m.id] }
+    else if ev == "dbus" then
+      evs := evs.push (.dbus (jstr e "method" == "RestartUnit") (jnat e "rc"))
+    else if ev.startsWith "hook_" then
+      im := { im with unknown := im.unknown ++ ["hook"] }     -- C07 vocabulary, not modelled here
+    else
+      im := { im with unknown := im.unknown ++ ["event:" ++ ev] }
+  if killsDelta != 0 && !statPlaced then
+    for _ in [0:killsDelta.toNat] do evs := evs.push .statKills
+  if jint tk "restarts_delta" != 0 then
+    for _ in [0:(jint tk "restarts_delta").toNat] do evs := evs.push .statRestarts
+  match jint? tk "pause" with
+  | some d => evs := evs.push (.pause d.toNat)
+  | none => pure ()
+  return { im with evs := evs.toList,
+                   env := { procs := procs.toList, killRc := killRc.toList, xattr := xattr.toList,
+                            writes := writes.toList, pidfd := pidfd.toList, mrelease := mrel.toList } }
+
+def retOfStr (s : String) : Option Ret :=
+  if s == "CONTINUE" then some .cont else if s == "STOP" then some .stop
+  else if s == "ASYNC_PAUSED" then some .async else none
+
+def evStr (e : Ev) : String := toString (repr e)
+
+/-! ## accepts -/
+
+structure TickCtx where
+  ms : List Meta
+  views : List View          -- all views of the tick
+  top : List View            -- top-level cgroups
+  roots : List View
+  cfg : KillCfg
+  impl : Impl
+  ret : String
+  tk : Json
+
+def tickCtx (sc : Json) (variant : String) (tree tk : Json) : TickCtx :=
+  let listing := jobj tk "listing"
+  let top := (jarr tree "children").map (parseNode listing [])
+  let ms := (jarr tree "children").flatMap (metas none [])
+  let views := top.flatMap allViews
+  let roots := rootsOf ms views (patterns sc)
+  { ms := ms, views := views, top := top, roots := roots, cfg := cfgOf sc variant,
+    impl := implOfTick ms tk, ret := jstr tk "ret", tk := tk }
+
+def isRestart (sc : Json) : Bool := jstr (jobj sc "cfg") "plugin" == "systemd_restart"
+def isPgScan (sc : Json) : Bool := jstr (jobj sc "cfg") "plugin" == "kill_by_pg_scan"
+
+/-- events are compared as multisets of (statKills / statRestarts / pause) + the ordered rest: the position of the
+    three in-process effects is not observable at the boundary -/
+def splitInproc (l : List Ev) : List Ev × List Ev :=
+  l.partition fun e => match e with
+    | .statKills | .statRestarts | .pause _ => true
+    | _ => false
+
+def sameEvents (a b : List Ev) : Bool :=
+  let (ia, oa) := splitInproc a
+  let (ib, ob) := splitInproc b
+  oa == ob && sortBy (fun x y => evStr x ≤ evStr y) ia == sortBy (fun x y => evStr x ≤ evStr y) ib
+
+/-- model events and return value for one tick -/
+def modelTick (sc : Json) (c : TickCtx) (gateOpen : Bool) : List Ev × Ret × Bool :=
+  if isRestart sc then
+    let rc := match c.impl.evs.find? (fun e => match e with | .dbus _ _ => true | _ => false) with
+      | some (.dbus _ rc) => rc
+      | _ => 0
+    let (evs, r) := runRestart { dry := c.cfg.dry } rc
+    (evs, r, true)
+  else if !gateOpen then ([], .async, true)
+  else
+    let run (rev : Bool) : List Ev × Ret × Bool :=
+      let rank := rankHint c.cfg c.impl.attempted rev
+      -- admissibility of the ranking on every sibling set it can be asked about
+      let ok := rankOKb rank c.roots && c.views.all (fun v => rankOKb rank v.children)
+      let r := runKill c.cfg rank c.roots c.impl.env
+      (r.evs, r.val, ok)
+    let a := run false
+    if sameEvents a.1 c.impl.evs then a else
+      let b := run true
+      if sameEvents b.1 c.impl.evs then b else a
+
+/-! ## holds: C01 -/
+
+def compMatch (name pat : String) : Bool :=
+  OomdModel.Path.fnmatch pat.toList name.toList
+
+/-- victim's path is matched by a pattern, or (recursive) has a matched proper prefix -/
+def matched (pats : List String) (recursive : Bool) (comps : List String) : Bool :=
+  pats.any fun p =>
+    let pc := (p.splitOn "/").filter (· ≠ "")
+    let full (cs : List String) : Bool := cs.length == pc.length && (cs.zip pc).all (fun (c, q) => compMatch c q)
+    full comps || (recursive && (List.range comps.length).any (fun n => n > 0 && full (comps.take n)))
+
+structure C01State where
+  victim : Option Nat := none
+  seen : List Int := []
+  success : Bool := false
+  viol : List String := []
+
+def isUuid (n : XName) : Bool := n == .uuidT || n == .uuidU
+
+def holdsC01Tick (sc : Json) (c : TickCtx) : List String := Id.run do
+  let pats := patterns sc
+  let mut st : C01State := {}
+  if c.impl.sigBad then st := { st with viol := st.viol ++ ["signals_contained.sigkill"] }
+  for e in c.impl.evs do
+    match e with
+    | .setxattr cg n _ _ _ =>
+      if isUuid n then
+        if st.victim != some cg then
+          if st.success then st := { st with viol := st.viol ++ ["stops_at_first_success"] }
+          let okm := match c.ms.find? (fun m => m.id == cg) with
+            | some m => matched pats c.cfg.recursive m.comps
+            | none => false
+          if !okm then st := { st with viol := st.viol ++ ["victim_matched"] }
+          st := { st with victim := some cg, seen := [] }
+      else if st.victim != some cg then st := { st with viol := st.viol ++ ["writes_contained.xattr"] }
+    | .write cg f rc =>
+      if st.victim != some cg then st := { st with viol := st.viol ++ ["writes_contained.control_file"] }
+      if f == .kill && rc ≥ 0 then st := { st with success := true }
+    | .procs cg pids =>
+      let inSub := match st.victim.bind (findView c.views) with
+        | some v => (subIds v).contains cg
+        | none => false
+      if !inSub then st := { st with viol := st.viol ++ ["signals_contained.other_cgroup_procs"] }
+      else st := { st with seen := st.seen ++ pids.getD [] }
+    | .kill pid rc =>
+      if st.victim.isNone then st := { st with viol := st.viol ++ ["signals_contained.no_victim"] }
+      if pid ≤ 0 then st := { st with viol := st.viol ++ ["signals_contained.positive_pid"] }
+      else if !(st.seen.contains pid) then st := { st with viol := st.viol ++ ["signals_contained.listed"] }
+      if rc == 0 then st := { st with success := true }
+    | _ => pure ()
+  return st.viol.eraseDups
+
+/-! ## holds: C03 -/
+
+structure Leaf where
+  v : View
+  chain : List View        -- ranked candidates from the root level down to the leaf (inclusive)
+
+partial def leavesOf (cfg : KillCfg) (anc : List View) (v : View) : List Leaf :=
+  if cfg.recursive && !(v.info.oomGroup.getD false) && !v.children.isEmpty then
+    (v.children.filter (·.info.eligible)).flatMap (leavesOf cfg (anc ++ [v]))
+  else if v.info.populated.getD true then [{ v := v, chain := anc ++ [v] }] else []
+
+/-- first pair of siblings at which two chains part -/
+def diverge : List View → List View → Option (View × View)
+  | a :: as, b :: bs => if a.id == b.id then diverge as bs else some (a, b)
+  | _, _ => none
+
+def attemptSucceeded (evs : List Ev) : List (Nat × Bool) := Id.run do
+  -- per wet attempt (uuid xattr starts it): did it signal / kernel-kill anything
+  let mut out : Array (Nat × Bool) := #[]
+  for e in evs do
+    match e with
+    | .setxattr cg n _ _ _ =>
+      if isUuid n then
+        if out.isEmpty || out.back!.1 != cg then out := out.push (cg, false)
+    | .kill _ rc => if rc == 0 && !out.isEmpty then out := out.modify (out.size - 1) (fun (c, _) => (c, true))
+    | .write _ f rc => if f == .kill && rc ≥ 0 && !out.isEmpty then out := out.modify (out.size - 1) (fun (c, _) => (c, true))
+    | _ => pure ()
+  return out.toList
+
+def ancestorsOf (ms : List Meta) (id : Nat) : List Nat :=
+  let rec go (fuel : Nat) (id : Nat) : List Nat :=
+    match fuel with
+    | 0 => []
+    | f + 1 => match (ms.find? (fun m => m.id == id)).bind (·.parent) with
+      | some p => p :: go f p
+      | none => []
+  go 64 id
+
+def holdsC03Tick (sc : Json) (c : TickCtx) : List String := Id.run do
+  let cfg := c.cfg
+  let leaves := (c.roots.filter (·.info.eligible)).flatMap (leavesOf cfg [])
+  let att : List (Nat × Bool) :=
+    if cfg.dry then c.impl.attempted.map (fun i => (i, true)) else attemptSucceeded c.impl.evs
+  let mut viol : List String := []
+  -- (a) every attempted cgroup is a candidate leaf
+  for (id, _) in att do
+    if !(leaves.any (·.v.id == id)) then
+      let v? := findView c.views id
+      let ancs := (ancestorsOf c.ms id).filterMap (findView c.views)
+      let belowRoot := ancs.any (fun a => c.roots.any (·.id == a.id)) || c.roots.any (·.id == id)
+      if ancs.any (fun a => a.info.oomGroup == some true && (c.roots.any (·.id == a.id) || (ancestorsOf c.ms a.id).any (fun r => c.roots.any (·.id == r)))) then
+        viol := viol ++ ["never_below_oom_group"]
+      else if !cfg.recursive && !(c.roots.any (·.id == id)) && belowRoot then viol := viol ++ ["no_descent_without_recursive"]
+      else if (v?.bind (·.info.populated)) == some false then viol := viol ++ ["unpopulated_skipped"]
+      else if (v?.map (fun v => descends cfg v)).getD false then viol := viol ++ ["descends_into_children"]
+      else if (v?.map (fun v => !v.info.eligible)).getD false then viol := viol ++ ["rank_filter"]
+      else viol := viol ++ ["victim_not_candidate"]
+  let attLeaves := att.filterMap fun (id, s) => (leaves.find? (·.v.id == id)).map (fun l => (l, s))
+  -- (b) a cgroup reachable as a candidate in two ways (overlapping root patterns) may be attempted once per way;
+  --     the trace does not say which way an attempt came from, so such cgroups are left out of the order clauses
+  let ambiguous (id : Nat) : Bool := (leaves.filter (·.v.id == id)).length > 1
+  let leaves := leaves.filter fun l => !(ambiguous l.v.id)
+  let attLeaves := attLeaves.filter fun (l, _) => !(ambiguous l.v.id)
+  -- (c) order of attempts respects (preference, key)
+  let n := attLeaves.length
+  for i in [0:n] do
+    for j in [i+1:n] do
+      match attLeaves[i]?, attLeaves[j]? with
+      | some (li, _), some (lj, _) =>
+        match diverge li.chain lj.chain with
+        | some (a, b) =>
+          if !(rkGe a b) then
+            viol := viol ++ [if a.pref != b.pref then "prefer_normal_avoid" else "fallback_in_rank_order"]
+        | none => pure ()
+      | _, _ => pure ()
+  -- (d) candidates left untried: only after a success, and only if not ranked strictly above an attempted one
+  let succeeded := att.any (·.2)
+  let untried := leaves.filter fun l => !(att.any (·.1 == l.v.id))
+  if !untried.isEmpty && !succeeded && (c.ret == "CONTINUE" || c.ret == "STOP") then viol := viol ++ ["fallback_exhausts_candidates"]
+  if succeeded then
+    for u in untried do
+      for (l, _) in attLeaves do
+        match diverge u.chain l.chain with
+        | some (a, b) =>
+          if rkGt a b then
+            viol := viol ++ [if a.pref != b.pref then "prefer_normal_avoid" else "fallback_in_rank_order"]
+        | none => pure ()
+  -- (e) a success is the last attempt
+  match att.dropLast.find? (·.2) with
+  | some _ => viol := viol ++ ["continues_after_success"]
+  | none => pure ()
+  return viol.eraseDups
+
+/-! ## holds: C17 -/
+
+structure Seg where
+  cg : Nat
+  evs : List Ev
+
+/-- wet attempts: a uuid xattr for another cgroup than the current one (or the first) starts a segment -/
+def segmentsOf (evs : List Ev) : List Seg × List Ev := Id.run do
+  let mut segs : Array Seg := #[]
+  let mut pre : Array Ev := #[]
+  let mut lastUuid : Option XVal := none
+  for e in evs do
+    let start := match e with
+      | .setxattr _ n val _ _ => isUuid n && lastUuid != some val
+      | _ => false
+    if start then
+      match e with
+      | .setxattr cg _ val _ _ =>
+        segs := segs.push { cg := cg, evs := [e] }
+        lastUuid := some val
+      | _ => pure ()
+    else if segs.isEmpty then pre := pre.push e
+    else segs := segs.modify (segs.size - 1) (fun s => { s with evs := s.evs ++ [e] })
+  return (segs.toList, pre.toList)
+
+def countIntOf (old : Option String) : Option Int :=
+  match old with
+  | none => some 0
+  | some s => if s == "" then some 0 else stoi? s
+
+def holdsC17Tick (sc : Json) (c : TickCtx) : List String := Id.run do
+  let cfg := c.cfg
+  let jc := jobj sc "ctx"
+  let plugin := jstr (jobj sc "cfg") "plugin"
+  let mut viol : List String := []
+  let (segs, pre) := segmentsOf c.impl.evs
+  let effect (e : Ev) : Bool := match e with
+    | .kill _ _ | .write _ _ _ | .pidfdOpen _ _ | .mrelease _ _ | .setxattr _ _ _ _ _ => true
+    | _ => false
+  if pre.any effect then viol := viol ++ ["uuid.before_effects"]
+  let mut signalledSegs := 0
+  let mut uuidVals : List XVal := []
+  for s in segs do
+    -- uuid: both attributes, same fresh value, before any signal
+    let us := s.evs.filterMap fun e => match e with
+      | .setxattr cg n v _ _ => if isUuid n then some (cg, n, v) else none
+      | _ => none
+    let firstSignal := s.evs.findIdx? (fun e => match e with | .kill _ _ => true | .write _ _ _ => true | _ => false)
+    let uuidIdx := s.evs.zipIdx.filterMap fun (e, i) => match e with
+      | .setxattr _ n _ _ _ => if isUuid n then some i else none
+      | _ => none
+    let haveBoth := us.any (fun (_, n, _) => n == .uuidT) && us.any (fun (_, n, _) => n == .uuidU)
+    if !haveBoth then viol := viol ++ ["uuid.both_attributes"]
+    if !(us.all (fun (cg, _, v) => cg == s.cg && some v == us.head?.map (·.2.2))) then viol := viol ++ ["uuid.same_value"]
+    match firstSignal with
+    | some fs => if uuidIdx.any (· > fs) || uuidIdx.isEmpty then viol := viol ++ ["uuid.before_signal"]
+    | none => pure ()
+    match us.head? with
+    | some (_, _, v) =>
+      if uuidVals.contains v then viol := viol ++ ["uuid.fresh"]
+      uuidVals := v :: uuidVals
+    | none => pure ()
+    -- counters
+    let nSig := (s.evs.filter fun e => match e with | .kill _ rc => rc == 0 | _ => false).length
+    let kernelOk := s.evs.any fun e => match e with | .write _ f rc => f == .kill && rc ≥ 0 | _ => false
+    for e in s.evs do
+      match e with
+      | .setxattr cg n (.num v) old rc =>
+        if cg != s.cg then viol := viol ++ ["xattr.other_cgroup"]
+        match countIntOf old with
+        | none => pure ()          -- pre-existing value is not an integer: outside what the clause speaks about
+        | some o =>
+          if n == .oomsT || n == .oomsU then
+            if v != o + 1 then viol := viol ++ ["ooms_plus_one"]
+          if (n == .killT || n == .killU) && !cfg.kernelKill then
+            if v != o + nSig then viol := viol ++ ["kill_plus_signals"]
+        let _ := rc
+      | _ => pure ()
+    let count (p : Ev → Bool) : Nat := (s.evs.filter p).length
+    if count (fun e => match e with | .setxattr _ n _ _ _ => n == .oomsT | _ => false) != 1 then viol := viol ++ ["ooms_plus_one.once"]
+    if count (fun e => match e with | .setxattr _ n _ _ _ => n == .oomsU | _ => false) != 1 then viol := viol ++ ["ooms_plus_one.once"]
+    let kernelAbort := cfg.kernelKill && !kernelOk     -- kernelkill branch returns before the completion xattr
+    if !kernelAbort then
+      if count (fun e => match e with | .setxattr _ n _ _ _ => n == .killT | _ => false) != 1 then viol := viol ++ ["kill_plus_signals.once"]
+      if count (fun e => match e with | .setxattr _ n _ _ _ => n == .killU | _ => false) != 1 then viol := viol ++ ["kill_plus_signals.once"]
+    let signalled := nSig > 0 || kernelOk
+    if signalled then signalledSegs := signalledSegs + 1
+    -- kmsg record of this attempt
+    let recs := s.evs.filter fun e => match e with | .kmsg _ _ => true | _ => false
+    if signalled && recs != [.kmsg s.cg false] then viol := viol ++ ["stat_and_kmsg.record"]
+    if !signalled && !recs.isEmpty then viol := viol ++ ["stat_and_kmsg.record_without_signal"]
+  -- stat
+  let killsDelta := jint c.tk "kills_delta"
+  if cfg.dry then
+    if killsDelta != 0 then viol := viol ++ ["stat_and_kmsg.dry_counts"]
+    let recs := c.impl.evs.filter fun e => match e with | .kmsg _ _ => true | _ => false
+    if recs.any (fun e => match e with | .kmsg _ d => !d | _ => false) then viol := viol ++ ["stat_and_kmsg.dry_marker"]
+    if recs.length > 1 then viol := viol ++ ["stat_and_kmsg.dry_once"]
+  else if killsDelta != signalledSegs then viol := viol ++ ["stat_and_kmsg.stat"]
+  -- record names cgroup (checked above through the id), ruleset, detector group, plugin
+  for (_, line) in c.impl.kmsgLines do
+    match parseKmsg line with
+    | some (_, r, g, k) =>
+      if r != (jstr? jc "ruleset").getD "rs" then viol := viol ++ ["stat_and_kmsg.ruleset"]
+      if g != (jstr? jc "group").getD "dg" then viol := viol ++ ["stat_and_kmsg.group"]
+      if k != (if cfg.dry then "(dry)" else "") ++ plugin then viol := viol ++ ["stat_and_kmsg.plugin"]
+    | none => viol := viol ++ ["stat_and_kmsg.format"]
+  -- return value
+  let didKill := if cfg.dry then !c.impl.kmsgLines.isEmpty else signalledSegs > 0
+  let want := if didKill && !cfg.alwaysContinue then "STOP" else "CONTINUE"
+  if c.ret != "ASYNC_PAUSED" && c.ret != want then viol := viol ++ ["return"]
+  if c.ret == "ASYNC_PAUSED" && !(c.impl.evs.isEmpty) then viol := viol ++ ["return.async_with_effects"]
+  return viol.eraseDups
+
+/-! ## holds: C04 (dry run of the scenario vs wet run of the same scenario) -/
+
+def effectEv (e : Ev) : Bool := match e with
+  | .kill _ _ | .write _ _ _ | .pidfdOpen _ _ | .mrelease _ _ | .setxattr _ _ _ _ _ | .statKills | .dbus _ _ | .statRestarts => true
+  | _ => false
+
+def holdsC04Tick (sc : Json) (d w : TickCtx) : List String := Id.run do
+  let mut viol : List String := []
+  if d.impl.evs.any effectEv then viol := viol ++ ["dry_no_effects"]
+  if isRestart sc then
+    if !(d.impl.evs.any (fun e => e == .kmsgRestart true)) then viol := viol ++ ["dry_same_control.kmsg_marker"]
+    if d.ret != "STOP" then viol := viol ++ ["dry_same_control.return"]
+    return viol.eraseDups
+  if d.ret == "ASYNC_PAUSED" || w.ret == "ASYNC_PAUSED" then
+    if d.ret != w.ret then viol := viol ++ ["dry_same_control.async"]
+    return viol.eraseDups
+  -- same first victim (up to ties of (preference, key), which the unstable sort may break differently)
+  let wetFirst := (attemptSucceeded w.impl.evs).head?.map (·.1)
+  let dryVictim := d.impl.attempted.head?
+  let leaves := (d.roots.filter (·.info.eligible)).flatMap (leavesOf d.cfg [])
+  match dryVictim, wetFirst with
+  | none, none => pure ()
+  | some a, some b =>
+    if a != b then
+      match leaves.find? (·.v.id == a), leaves.find? (·.v.id == b) with
+      | some la, some lb =>
+        match diverge la.chain lb.chain with
+        | some (x, y) => if !(rkGe x y && rkGe y x) then viol := viol ++ ["dry_same_first_victim"]
+        | none => pure ()
+      | _, _ => viol := viol ++ ["dry_same_first_victim"]
+  | _, _ => viol := viol ++ ["dry_same_first_victim"]
+  -- control flow: as a wet run after a successful kill
+  let recs := d.impl.evs.filter fun e => match e with | .kmsg _ _ => true | _ => false
+  match dryVictim with
+  | some v =>
+    if recs != [.kmsg v true] then viol := viol ++ ["dry_same_control.kmsg_marker"]
+    let want := if d.cfg.alwaysContinue then "CONTINUE" else "STOP"
+    if d.ret != want then viol := viol ++ ["dry_same_control.return"]
+    let wantPause : Option Nat := if d.cfg.alwaysContinue || !d.cfg.hasRuleset then none else d.cfg.postActionDelay
+    let pauseOf (c : TickCtx) : Option Nat := (jint? c.tk "pause").map Int.toNat
+    if pauseOf d != wantPause then viol := viol ++ ["dry_same_control.pause"]
+    let wetSucceeded := (attemptSucceeded w.impl.evs).any (·.2)
+    if wetSucceeded && (pauseOf w != pauseOf d || w.ret != d.ret) then viol := viol ++ ["dry_same_control.differs_from_wet_success"]
+  | none =>
+    if !recs.isEmpty then viol := viol ++ ["dry_same_control.kmsg_marker"]
+    if d.ret != "CONTINUE" then viol := viol ++ ["dry_same_control.return"]
+  return viol.eraseDups
+
+/-! ## one scenario -/
+
+def classOf (viol : List String) (c : Option TickCtx) : String :=
+  if viol.contains "signals_contained.positive_pid" then
+    match c with
+    | some c =>
+      if c.impl.evs.any (fun e => match e with | .kill p _ => p == 0 | _ => false) then "procs-line-0" else "procs-line-negative"
+    | none => "procs-line-0"
+  else viol.head?.getD ""
+
+def handle (j : Json) : Json := Id.run do
+  let sc := jobj j "s"
+  let tr := jobj j "t"
+  let id := jstr sc "id"
+  let prop := jstr sc "prop"
+  let ticks := jarr sc "ticks"
+  let runs := jarr tr "runs"
+  if runs.isEmpty then
+    -- the harness died on this scenario: nothing to compare; the outcome itself is the finding
+    let oc := jstr tr "outcome"
+    return verdict id false true [] ("outcome:" ++ oc) []
+  let mut accepts := true
+  let mut notes : List Json := []
+  let mut viol : List String := []
+  let mut firstBad : Option TickCtx := none
+  let mut perRun : List (List TickCtx) := []
+  for run in runs do
+    let variant := jstr run "variant"
+    let rticks := jarr run "ticks"
+    let mut gate : Option Nat := none
+    let mut ctxs : List TickCtx := []
+    for (tkS, i) in ticks.zipIdx do
+      match rticks[i]? with
+      | none => accepts := false; notes := notes ++ [Json.str s!"{variant}: tick {i} missing ({jstr run "outcome"})"]
+      | some tk =>
+        let c := tickCtx sc variant (jobj tkS "tree") tk
+        ctxs := ctxs ++ [c]
+        if jstr tk "outcome" != "ok" then
+          accepts := false
+          notes := notes ++ [Json.str s!"{variant}: tick {i} outcome {jstr tk "outcome"}"]
+          continue
+        let (g', open_) := if isPgScan sc then pgScanGate gate (i + 1) else (none, true)
+        gate := g'
+        let (mevs, mret, rankOk) := modelTick sc c open_
+        let same := sameEvents mevs c.impl.evs && some mret == retOfStr c.ret && c.impl.unknown.isEmpty && rankOk
+        if !same then
+          accepts := false
+          notes := notes ++ [Json.mkObj [("variant", Json.str variant), ("tick", Json.num i),
+            ("model", mkStrs (mevs.map evStr)), ("impl", mkStrs (c.impl.evs.map evStr)),
+            ("model_ret", Json.str (toString (repr mret))), ("impl_ret", Json.str c.ret),
+            ("unknown", mkStrs c.impl.unknown), ("rank_ok", Json.bool rankOk)]]
+        -- per-tick clauses
+        let v := if isRestart sc then []
+          else if prop == "C01" then holdsC01Tick sc c
+          else if prop == "C03" then holdsC03Tick sc c
+          else if prop == "C17" then holdsC17Tick sc c
+          else []
+        if !v.isEmpty && firstBad.isNone then firstBad := some c
+        viol := viol ++ v
+    perRun := perRun ++ [ctxs]
+  if prop == "C04" then
+    match perRun with
+    | [ds, ws] =>
+      for (d, w) in ds.zip ws do
+        let v := holdsC04Tick sc d w
+        if !v.isEmpty && firstBad.isNone then firstBad := some d
+        viol := viol ++ v
+    | _ => viol := viol ++ ["twin_runs_missing"]
+  let violF := viol.eraseDups
+  return verdict id accepts violF.isEmpty violF (classOf violF firstBad) [("notes", Json.arr notes.toArray)]
 
 end Driver.Kill
 
